@@ -4,7 +4,7 @@
 EXTENDS NfcDep
 
 CfgD(lrI, lrT, did, did0, nad, fixmiu, R) ==
-    [lrI |-> lrI, lrT |-> lrT, did |-> did, tdid |-> did /\ ~did0, did0 |-> did0, nad |-> nad,
+    [lrI |-> lrI, lrT |-> lrT, did |-> did, tdid |-> did /\ ~did0, did0 |-> did0, nad |-> nad, sb |-> (lrI + lrT) % 2 = 0,
      miuI |-> lrT - 3 - B(did) - B(nad),
      miuT |-> lrI - 3 - (IF fixmiu THEN B(did /\ ~did0) ELSE 0), R |-> R]
 Cfg(lrI, lrT, did, nad, fixmiu, R) == CfgD(lrI, lrT, did, FALSE, nad, fixmiu, R)
@@ -20,6 +20,7 @@ MC_CfgsThorough == MC_CfgsFixed \cup {Cfg(7, 6, FALSE, FALSE, TRUE, 3)}
 MC_CfgsAsIs  == {Cfg(5, 5, FALSE, FALSE, FALSE, 2), Cfg(6, 6, TRUE, FALSE, FALSE, 2)}
 MC_CfgsDid0  == {CfgD(5, 6, TRUE, TRUE, FALSE, TRUE, 2)}
 MC_VsHead    == {{"ack", "atn", "ipni0"}}            \* /repo HEAD: did=0 still open
+MC_CfgsTrunc == {Cfg(5, 5, FALSE, FALSE, TRUE, 2), Cfg(6, 5, TRUE, FALSE, TRUE, 2)}     \* 106A / 212F framing
 MC_CfgsNoDid == {Cfg(5, 5, FALSE, FALSE, FALSE, 2)}
 MC_Lens  == {1, 2, 3, 5}
 MC_LensT == {1, 2, 3, 4, 5, 6}
